@@ -101,6 +101,12 @@ def judge(case, base_obs, mod_obs, label):
     if len(s0) != len(s1):
         viols.append(("C13:rate-count", f"{label}: {len(s0)} rate statements without, {len(s1)} with modifier"))
         return viols
+    # the slot a statement writes is the reaction's position, with or without modifiers (k has NREACTIONS slots)
+    nre = ot1.macros.value("NREACTIONS")
+    slots1 = [i1 for (i1, _g, _e) in s1]
+    if slots1 != list(range(len(s1))) or len(s1) != nre:
+        viols.append((f"C13:rate-slot:{case['pattern']}", f"{label}: with modifiers the rate statements write k{slots1} (NREACTIONS={nre}); one statement per reaction, in position order, is expected"))
+        return viols
     for i, ((i0, g0, e0), (i1, g1, e1)) in enumerate(zip(s0, s1)):
         if eff[i] in keys:
             want = " ".join(keys[eff[i]].split())
